@@ -192,7 +192,21 @@ func wideInstance(c *Ctx, s map[string]any) any {
 func (g *schemaGen) cluster() map[string]any {
 	c := g.c
 	k := func() string { return pick(c, propPool) }
-	switch c.W(11) {
+	switch c.W(13) {
+	case 11, 12:
+		// a dependent subschema that evaluates further members, held by a schema with no other
+		// property keyword (12) or next to "properties" (11)
+		dep := map[string]any{k(): map[string]any{"properties": map[string]any{k(): map[string]any{}}}, k(): map[string]any{"properties": map[string]any{k(): map[string]any{"type": pick(c, typePool)}}}}
+		s := map[string]any{}
+		if g.draft7 {
+			s["dependencies"] = dep
+		} else {
+			s["dependentSchemas"] = dep
+		}
+		if c.W(2) == 0 {
+			s["properties"] = map[string]any{k(): map[string]any{}}
+		}
+		return s
 	case 10:
 		// succeeds on every object and marks every property as evaluated
 		if g.draft7 {
@@ -275,7 +289,7 @@ func (g *schemaGen) annotationSchema(depth int) map[string]any {
 	k := func() string { return pick(c, propPool) }
 	var branch func(d int) map[string]any
 	branch = func(d int) map[string]any {
-		switch c.W(8) {
+		switch c.W(9) {
 		case 0:
 			return map[string]any{"properties": map[string]any{k(): map[string]any{}}}
 		case 1:
@@ -294,6 +308,8 @@ func (g *schemaGen) annotationSchema(depth int) map[string]any {
 				return map[string]any{"anyOf": []any{branch(d - 1), branch(d - 1)}}
 			}
 			return map[string]any{}
+		case 8:
+			return map[string]any{"properties": map[string]any{k(): map[string]any{}}, "dependentSchemas": map[string]any{k(): map[string]any{"properties": map[string]any{k(): map[string]any{}}}, k(): map[string]any{"properties": map[string]any{k(): map[string]any{}}}}}
 		case 6:
 			return map[string]any{"properties": map[string]any{k(): map[string]any{}}, "unevaluatedProperties": c.W(2) == 0}
 		default:
